@@ -639,6 +639,12 @@ class Interp:
     def e_GeneratorExp(self, e, env):
         return self._comp(e, env, lambda en: self.eval(e.elt, en))
 
+    def e_DictComp(self, e, env):
+        return dict(self._comp(e, env, lambda en: (self.eval(e.key, en), self.eval(e.value, en))))
+
+    def e_SetComp(self, e, env):
+        return self._comp(e, env, lambda en: self.eval(e.elt, en))
+
     def e_IfExp(self, e, env):
         c = self.truth(self.eval(e.test, env))
         return self.eval(e.body if c else e.orelse, env)
@@ -908,7 +914,15 @@ class Interp:
                 args += list(self.eval(a.value, env))
             else:
                 args.append(self.eval(a, env))
-        kwargs = {k.arg: self.eval(k.value, env) for k in e.keywords if k.arg}
+        kwargs = {}
+        for k in e.keywords:
+            if k.arg:
+                kwargs[k.arg] = self.eval(k.value, env)
+            else:
+                d = self.eval(k.value, env)
+                if not isinstance(d, dict):
+                    raise EvalError("** of a value that is not a dictionary")
+                kwargs.update(d)
         return self.call(f, args, kwargs)
 
     def call(self, f, args, kwargs):
@@ -1035,6 +1049,9 @@ class Interp:
             return PyFunc("value_and_grad(" + f_.name + ")", lambda it, a, k, f_=f_: (f_.fn(it, a, k), f_.grad(it, a, k)))
         if name in ("builtins.print",):
             return None
+        if name == "functools.partial" and args:
+            f0, a0, k0 = args[0], list(args[1:]), dict(kwargs)
+            return PyFunc("partial", lambda it, a, k, f0=f0, a0=a0, k0=k0: it.call(f0, a0 + list(a), dict(k0, **k)))
         if name == "builtins.range":
             return list(range(*[self.as_int(a) for a in args]))
         if name == "builtins.reversed":
